@@ -26,7 +26,10 @@ var orderedKinds = []int{0, 1, 5, 9}
 
 // sameTypeKinds map all constants to one term type (needed when == is used: comparing values of
 // different types is an error in Biscuit, not "false").
-var sameTypeKinds = []int{0, 1, 2, 4, 5, 6, 7, 9}
+var sameTypeKinds = []int{0, 1, 2, 4, 5, 6, 7, 9, 10}
+
+// anyKinds: chosen when a program compares nothing
+var anyKinds = []int{0, 1, 2, 3, 4, 5, 6, 7, 10}
 
 // cmp: 0 = the program compares nothing, 1 = uses == / !=, 2 = uses < / <=
 func newEmbed(seed int64, cmp int) *Embed {
@@ -42,7 +45,7 @@ func newEmbed(seed int64, cmp int) *Embed {
 	case 1:
 		e.Kind = sameTypeKinds[int(seed)%len(sameTypeKinds)]
 	default:
-		e.Kind = int(seed) % embedKinds
+		e.Kind = anyKinds[int(seed)%len(anyKinds)]
 	}
 	return e
 }
@@ -121,6 +124,8 @@ func (e *Embed) Const(c int) biscuit.Term {
 		t = biscuit.Set{biscuit.Integer(int64(c)), biscuit.Integer(100)}
 	case 7:
 		t = biscuit.Set{biscuit.Bytes([]byte{byte(c)}), biscuit.Bytes([]byte{200, 1})}
+	case 10: // strings of c letters: constant 0 is the EMPTY string (a symbol like any other)
+		t = biscuit.String(strings.Repeat("z", c))
 	case 9: // constant i is the set {0..i}: x <= y iff x is a subset of y; the order comparisons become set operations
 		s := biscuit.Set{}
 		for k := c; k >= 0; k-- { // descending: an element that survives an intersection changes its position
